@@ -110,6 +110,7 @@ def rule_output_once(ctx):
     r = ctx.rule("output-once-in-order", "output_text's chunk loop advances only by GetNext() or by the chunk an output_comment_* writer returns; every "
                  "iteration passes exactly one emitter of pc (add_text(pc->GetStr()..), a comment writer, the newline arm) or the empty-text arm")
     o = db.fn("output_text", file=OUT)
+    r.names(o, "pc")
     emits = [n for n in o.all_nodes() if n["k"] == "call" and not in_macro(n, "LOG_FMT") and
              ((n.get("c") == "add_text" and n.get("a") and expr_str(o, n["a"][0]) == "pc->GetStr()") or (n.get("c") or "").startswith("output_comment_"))]
     r.require(len(emits) >= 6, "output_text: %d emit sites" % len(emits))
@@ -177,6 +178,7 @@ def rule_no_overlap(ctx):
     r = ctx.rule("no-overlap", "in output_text a chunk that is not first on its line is re-indented when its column lies left of the output column, and "
                  "every chunk is reached through output_to_column, which never decreases cpd.column")
     o = db.fn("output_text", file=OUT)
+    r.names(o, "pc")
     re_ = [n for n in o.all_nodes() if n["k"] == "call" and n.get("c") == "reindent_line"]
     dg = o.direct_guard(o.nblock[re_[0]["i"]]) if re_ else None
     r.check(len(re_) == 1 and dg is not None and dg[1] is True and expr_str(o, dg[0]) == "pc->GetColumn() < cpd.column" and ("cpd.did_newline", False) in _conds(o, re_[0]) and
